@@ -25,6 +25,8 @@ func installPropertyHooks(w *World, prop string) {
 	}
 	w.genericPre = append(w.genericPre, isaPre)
 	w.genericPost = append(w.genericPost, isaObligations)
+	w.genericPre = append(w.genericPre, implPre)
+	w.genericPost = append(w.genericPost, implPost)
 }
 
 func propertyObligations(w *World, o checkOpts, mine []*Contract) []*Obligation { return nil }
